@@ -1,0 +1,69 @@
+//go:build verif
+
+package iavl
+
+import (
+	"bytes"
+	"fmt"
+	"strings"
+)
+
+// VerifShape renders the shape of the tree canonically (keys, node versions, persisted flags) and reports broken structural
+// invariants (AVL balance, height/size fields, inner-node keys). Read-only; verification builds only.
+func VerifShape(t *ImmutableTree) (string, error) {
+	if t == nil || t.root == nil {
+		return "()", nil
+	}
+	var sb strings.Builder
+	_, _, _, _, err := verifShape(t, t.root, &sb)
+	return sb.String(), err
+}
+
+func verifP(n *Node) string {
+	if n.persisted {
+		return "p"
+	}
+	return ""
+}
+
+func verifShape(t *ImmutableTree, n *Node, sb *strings.Builder) (height int8, size int64, min, max []byte, err error) {
+	if n.isLeaf() {
+		fmt.Fprintf(sb, "%x@%d%s", n.key, n.version, verifP(n))
+		if n.size != 1 {
+			err = fmt.Errorf("leaf %x has size %d", n.key, n.size)
+		}
+		if n.value == nil {
+			err = fmt.Errorf("leaf %x has nil value", n.key)
+		}
+		return 0, 1, n.key, n.key, err
+	}
+	sb.WriteString("(")
+	lh, ls, lmin, lmax, lerr := verifShape(t, n.getLeftNode(t), sb)
+	fmt.Fprintf(sb, " <%x@%d%s> ", n.key, n.version, verifP(n))
+	rh, rs, rmin, rmax, rerr := verifShape(t, n.getRightNode(t), sb)
+	sb.WriteString(")")
+	err = lerr
+	if err == nil {
+		err = rerr
+	}
+	h := lh
+	if rh > h {
+		h = rh
+	}
+	h++
+	if err == nil {
+		switch {
+		case n.height != h:
+			err = fmt.Errorf("inner node <%x> has height %d, children give %d", n.key, n.height, h)
+		case n.size != ls+rs:
+			err = fmt.Errorf("inner node <%x> has size %d, children give %d", n.key, n.size, ls+rs)
+		case int(lh)-int(rh) > 1 || int(rh)-int(lh) > 1:
+			err = fmt.Errorf("inner node <%x> is unbalanced: left height %d, right height %d", n.key, lh, rh)
+		case !bytes.Equal(n.key, rmin):
+			err = fmt.Errorf("inner node key <%x> is not the smallest key of its right subtree (%x)", n.key, rmin)
+		case bytes.Compare(lmax, n.key) >= 0:
+			err = fmt.Errorf("inner node key <%x> is not greater than its left subtree (max %x)", n.key, lmax)
+		}
+	}
+	return h, ls + rs, lmin, rmax, err
+}
